@@ -6,10 +6,10 @@ Open Scope Z_scope.
 
 (* observation of one op: the delays requested during the op (time of request, ns) and,
    per writer, (number of OFFERED_DEADLINE_MISSED listener calls, total_count of the last) *)
-Record obs : Type := mkObs { o_delays : list (Z * Z); o_wsig : list (Z * Z) }.
+Record obs : Type := mkObs { o_delays : list (Z * Z); o_wsig : list (Z * Z); o_reply : Z }.
 
 Inductive C31_case : Type :=
-| CSim (interval_ns : Z) (ops : list (sop * obs)) (final_odm : list Z)
+| CSim (interval_ns : Z) (ops : list (sop * obs))
 | CBlock (mbt : Z) (poisoned : bool) (rc : Z) (elapsed : Z) (delays : list (Z * Z)).
 
 Definition pair_eqb (a b : Z * Z) : bool := (fst a =? fst b) && (snd a =? snd b).
@@ -36,17 +36,16 @@ Fixpoint run_sim (s : sstate) (ops : list (sop * obs)) : bool * sstate :=
   match ops with
   | [] => (true, s)
   | (o, ob) :: r =>
-      let '(s1, ds) := step s o (length (o_delays ob)) in
+      let '(s1, ds, rep) := step s o (length (o_delays ob)) in
       let ok := list_eqb delay_eqb ds (o_delays ob) &&
-                list_eqb pair_eqb (wsigs (ss_writers s) (ss_writers s1)) (o_wsig ob) in
+                list_eqb pair_eqb (wsigs (ss_writers s) (ss_writers s1)) (o_wsig ob) &&
+                (rep =? o_reply ob) in
       let '(okr, s2) := run_sim s1 r in (ok && okr, s2)
   end.
 
 Definition C31_model_ok (c : C31_case) : bool :=
   match c with
-  | CSim iv ops fin =>
-      let '(ok, s) := run_sim (init_state iv) ops in
-      ok && list_eqb Z.eqb (map sw_odm (ss_writers s)) fin
+  | CSim iv ops => fst (run_sim (init_state iv) ops)
   | CBlock mbt poisoned rc elapsed _ =>
       if poisoned then rc =? -1 else (rc =? 10) && (elapsed =? mbt)
   end.
@@ -74,7 +73,7 @@ Fixpoint oracle_sim (now last : Z) (ops : list (sop * obs)) : bool :=
 
 Definition C31_oracle_ok (c : C31_case) : bool :=
   match c with
-  | CSim iv ops _ => oracle_sim 1000000000 1000000000 ops
+  | CSim iv ops => oracle_sim 1000000000 1000000000 ops
   | CBlock mbt _ rc elapsed ds => (rc =? 10) && (elapsed <=? mbt + POKE_NS) && delays_ok ds
   end.
 
@@ -84,11 +83,11 @@ Fixpoint sim_negative (s : sstate) (ops : list (sop * obs)) : bool :=
   match ops with
   | [] => false
   | (o, ob) :: r =>
-      let '(s1, ds) := step s o (length (o_delays ob)) in
+      let '(s1, ds, _) := step s o (length (o_delays ob)) in
       existsb (fun p => match snd p with Ok d => POKE_NS <? d | _ => true end) ds || sim_negative s1 r
   end.
 Definition C31_known (c : C31_case) : N :=
   match c with
-  | CSim iv ops _ => if sim_negative (init_state iv) ops then 1%N else 0%N
+  | CSim iv ops => if sim_negative (init_state iv) ops then 1%N else 0%N
   | CBlock _ poisoned _ _ _ => if poisoned then 1%N else 0%N
   end.
